@@ -308,7 +308,49 @@ def str_to_int(s, base=10):
 
 
 # ---------------------------------------------------------------------------------------------
-def sym_format(fmt, args):
+def int_to_items(v, base=10, upper=False, width=0, zero=False, left=False, plus=""):
+    """text of an integer (str(v), '%d' % v, '%02x' % v ...) as code point items.  The number of
+    digits is decided from the interval where possible and by forking otherwise (at most
+    log_base(range) forks); every digit is a division by a constant."""
+    if isinstance(v, SymBool):
+        v = v._lift()
+    if isinstance(v, int) and not isinstance(v, SymInt):
+        digs = {10: "%d", 16: "%x", 8: "%o"}[base] % abs(v)
+        items = [ord(c) for c in (digs.upper() if upper else digs)]
+        neg = v < 0
+    else:
+        neg = bool(v < 0)
+        a = -v if neg else v
+        if isinstance(a, int):
+            return int_to_items(-a if neg else a, base, upper, width, zero, left, plus)
+        maxd = 1
+        while base ** maxd <= a.hi:
+            maxd += 1
+        if zero and not left and not neg and not plus and width >= maxd:
+            n = width
+        else:
+            n = 1
+            while n < maxd and bool(a >= base ** n):
+                n += 1
+        items = []
+        for i in reversed(range(n)):
+            d = (a // (base ** i)) % base
+            if isinstance(d, int):
+                items.append(ord("0123456789abcdef"[d]))
+                continue
+            w = max(d.w, 9)
+            t = d.ext(w)
+            items.append(SymInt.make(z3.If(t < 10, t + 48, t + (55 if upper else 87)), w, 48, 102))
+    sign = [45] if neg else ([ord(plus)] if plus else [])
+    pad = max(0, width - len(items) - len(sign))
+    if left:
+        return sign + items + [32] * pad
+    if zero:
+        return sign + [48] * pad + items
+    return [32] * pad + sign + items
+
+
+def sym_format(fmt, args, precise=False):
     """'fmt' % args where fmt or some %s argument is symbolic text: supports %s %-Ns %Ns %% and, for concrete
     arguments, every conversion Python supports"""
     import re
@@ -342,6 +384,10 @@ def sym_format(fmt, args):
             w = int(width) if width else 0
             pad = [32] * max(0, w - len(items))
             out.extend(items + pad if "-" in flags else pad + items)
+        elif precise and isinstance(a, (SymInt, SymBool)) and conv in "dixXosr" and not prec:
+            base = {"x": 16, "X": 16, "o": 8}.get(conv, 10)
+            out.extend(int_to_items(a, base, conv == "X", int(width) if width else 0, "0" in flags, "-" in flags,
+                                    "+" if "+" in flags else (" " if " " in flags else "")))
         elif isinstance(a, (SymInt, SymBool, SymBytes, ShByteArray)):
             out.extend(ord(c) for c in "<sym>")
         else:
@@ -350,6 +396,42 @@ def sym_format(fmt, args):
     out.extend(ord(c) for c in fs[pos:])
     if ai != len(tup) and not isinstance(args, dict):
         raise TypeError("not all arguments converted during string formatting")
+    return mkstr(out)
+
+
+def sym_strformat(lit, args, kwargs):
+    """'lit'.format(*args, **kwargs) with symbolic integers / text among the arguments"""
+    import string
+    out = []
+    auto = 0
+    for text, field, spec, conv in string.Formatter().parse(lit):
+        out.extend(ord(c) for c in text)
+        if field is None:
+            continue
+        if conv is not None or any(c in field for c in ".["):
+            raise EngineGap("str.format field %r" % (field,))
+        if field == "":
+            a = args[auto]
+            auto += 1
+        elif field.isdigit():
+            a = args[int(field)]
+        else:
+            a = kwargs[field]
+        if isinstance(a, SymStr):
+            if spec:
+                raise EngineGap("str.format spec for symbolic text")
+            out.extend(a.items)
+        elif isinstance(a, (SymInt, SymBool)):
+            import re
+            m = re.fullmatch(r"(0?)(\d*)([dxXo]?)", spec or "")
+            if not m:
+                raise EngineGap("str.format spec %r for symbolic integer" % (spec,))
+            base = {"x": 16, "X": 16, "o": 8}.get(m.group(3), 10)
+            out.extend(int_to_items(a, base, m.group(3) == "X", int(m.group(2) or 0), bool(m.group(1))))
+        elif isinstance(a, (SymBytes, ShByteArray)):
+            raise EngineGap("str.format of symbolic bytes")
+        else:
+            out.extend(ord(c) for c in format(a, spec or ""))
     return mkstr(out)
 
 
